@@ -133,7 +133,7 @@ UNITS['lifetime'] = {
         'EXPECT_DEATH': '12deathwatchedIN14vp_trompeloeil4vp_DEE24trompeloeil_expect_death', 'LM_CTOR': '16lifetime_monitorC1IN14vp_trompeloeil4vp_DEEE',
         'LM_DTOR': 'dtor:^lifetime_monitor$', 'NOTIFY': '16lifetime_monitor6notifyEv', 'LM_IS_SATISFIED': '16lifetime_monitor12is_satisfiedEv', 'LM_IS_SATURATED': '16lifetime_monitor12is_saturatedEv',
         'DW_ASSIGN': '12deathwatchedIN14vp_trompeloeil4vp_DEEaSERKS3_', 'DW_COPY': '12deathwatchedIN14vp_trompeloeil4vp_DEEC1IJRS3_EvEE',
-        'DW_MOVE': '12deathwatchedIN14vp_trompeloeil4vp_DEEC1IJS3_EvEE', 'DW_CTOR': '12deathwatchedIN14vp_trompeloeil4vp_DEEC1IJEvEE',
+        'DW_MOVE': '12deathwatchedIN14vp_trompeloeil4vp_DEEC1IJS3_EvEE', 'DW_COPY_CONST': '12deathwatchedIN14vp_trompeloeil4vp_DEEC1ERKS3_', 'DW_CTOR': '12deathwatchedIN14vp_trompeloeil4vp_DEEC1IJEvEE',
         'NOM_ASSIGN_COPY': '12null_on_moveINS_16lifetime_monitorEEaSERKS2_', 'NOM_ASSIGN_PTR': '12null_on_moveINS_16lifetime_monitorEEaSEPS1_',
         'SH0': 'rec:^sequence_handler<0>$', 'SH1': 'rec:^sequence_handler<1>$', 'SM': 'rec:^sequence_matcher$', 'ST': 'rec:^sequence_type$',
         'SH0_CTOR': '16sequence_handlerILm0EEC1',
@@ -248,7 +248,7 @@ def _text_variants(n, ncond_digits, extra=None):
         if extra: d.update(extra)
         out.append(('N%d.%s' % (n, tag), d))
     return out
-ob(name='world.text.no_match_listing', kind='BL', props=['C15', 'C04'], unit='world_ii', harness='h_world.c', entry='w_nomatch_text',
+ob(name='world.text.no_match_listing', kind='BL', props=['C15', 'C04', 'C08'], unit='world_ii', harness='h_world.c', entry='w_nomatch_text',
    variants=_text_variants(2, 8), unwind=26, timeout=1800, min_reach=0,
    bound=_BOUND % 'N=2 expectations x {active,saturated,detached}, two WITH clauses each with free results; message = token log of capacity 40')
 ob(name='world.text.unfulfilled_report', kind='BL', props=['C04', 'C15'], unit='world_ii', harness='h_world.c', entry='w_unfulfilled_text',
@@ -479,8 +479,40 @@ UNITS['mf_glue'] = {
 ob(name='mock_func.glue.contract', kind='FC+', props=['C01', 'C02', 'C08', 'C14', 'C15', 'C17'], unit='mf_glue', harness='h_mf_glue.c', entry='g_glue', unwind=4, defines={'VP_TOK_CAP': 12},
    bound='none: expectation lists of any length (find() answers by contract: null or any live matcher); every behaviour of the two virtual calls (return / std exception / other exception)')
 
+# unit dtor_fc: the end-of-lifetime decision (user-written body of ~call_matcher, mock_destroyed) - loop-free, unbounded (C04)
+UNITS['dtor_fc'] = {
+    'opaque': [' get_lock$'], 'dyn_types': [r'^sequence_handler<0>$'],
+    'roots': {'SH0': 'rec:^sequence_handler<0>$', 'CM_DTOR_BODY': r'12call_matcherIFiiESt5tupleIJNS_8wildcardEEEED1Ev', 'MOCK_DESTROYED': r'12call_matcherIFiiESt5tupleIJNS_8wildcardEEEE14mock_destroyedEv',
+              'CM': r'rec:^call_matcher<int\(int\),std::tuple<wildcard>>$', 'LE': r'rec:^list_elem<call_matcher_base<int\(int\)>>$'},
+}
+for e in ('d_dtor_body', 'd_mock_destroyed_then_dtor'):
+    ob(name='lifetime_end.%s' % e[2:], kind='FC+', props=['C04', 'C14', 'C15'], unit='dtor_fc', harness='h_dtor_fc.c', entry=e, unwind=14,
+       variants=[('shape%d' % k, {'W_SHAPE': k}) for k in (0, 1, 2)], min_reach=0,
+       bound='none: every state of the expectation (free bounds, count, reported flag), list of any length (three alias shapes of its position, exhaustive for unlink / is_linked)')
+
+# unit seqh_fc: sequence_handler<2> over its two handles, the sequence walks as contract-only stubs (C02 max rule, C05)
+UNITS['seqh_fc'] = {
+    'opaque': [' get_lock$', r'13sequence_type4costE', r'13sequence_type12retire_untilE', r'13sequence_type14validate_matchE'], 'dyn_types': [],
+    'roots': {'ORDER2': r'16sequence_handlerILm2EE5orderEv', 'CAN_BE_CALLED2': r'16sequence_handlerILm2EE13can_be_calledEv', 'RETIRE2': r'16sequence_handlerILm2EE6retireEv',
+              'RETIRE_PRED2': r'16sequence_handlerILm2EE19retire_predecessorsEv', 'VALIDATE2': r'16sequence_handlerILm2EE8validateE',
+              'SH2': 'rec:^sequence_handler<2>$', 'SM': 'rec:^sequence_matcher$', 'ST': 'rec:^sequence_type$'},
+    'stub_aliases': {'SEQ_COST': r'^f_.*13sequence_type4costE', 'SEQ_RETIRE_UNTIL': r'^f_.*13sequence_type12retire_untilE', 'SEQ_VALIDATE_MATCH': r'^f_.*13sequence_type14validate_matchE'},
+}
+for e, props in (('s_order', ['C02', 'C05']), ('s_retire_validate', ['C05', 'C06', 'C15'])):
+    ob(name='seq_handler2.%s' % e[2:], kind='FC+', props=props, unit='seqh_fc', harness='h_seqh_fc.c', entry=e, unwind=4,
+       bound='none: sequences of any length (cost / retire_until / validate_match by contract); the handler loops run over its two handles')
+
+# unit seqval: sequence_type::validate_match - which sequences get a report (C05)
+UNITS['seqval'] = {
+    'opaque': [' get_lock$'], 'dyn_types': [],
+    'roots': {'VALIDATE_MATCH': r'13sequence_type14validate_matchE', 'SM': 'rec:^sequence_matcher$', 'ST': 'rec:^sequence_type$'},
+}
+ob(name='seq_validate.validate_match', kind='BL', props=['C05', 'C15'], unit='seqval', harness='h_seqval.c', entry='v_validate_match', unwind=26, timeout=900,
+   variants=[('N%d.T%d' % (n, t), {'W_N': n, 'W_T': t}) for n in (0, 1, 2, 3) for t in range(n + 1)], min_reach=0,
+   bound='sequences of 0..3 registered handles x position of the validated handle (incl. not registered); bounds, counts and severity free')
+
 # thorough-only: mock_func with expectations in two sequences (concrete K), larger text shapes
 ob(name='world.call.mock_func.two_sequences', kind='BL', props=['C01', 'C02', 'C03', 'C05', 'C07', 'C08', 'C14', 'C15', 'C16', 'C17'], unit='world_ii', harness='h_world.c', entry='w_call', tier='thorough',
    variants=[v for v in world_variants(2, 2, True) if not v[0].endswith('K22')], unwind=10, timeout=2400, bound=_BOUND % 'N=2 expectations, expectation 0 in both sequences, expectation 1 in 0..1 (both in both sequences: CBMC does not finish within 40 minutes, left out)', min_reach=0)
-ob(name='world.text.no_match_listing.three', kind='BL', props=['C15', 'C04'], unit='world_ii', harness='h_world.c', entry='w_nomatch_text', tier='thorough',
+ob(name='world.text.no_match_listing.three', kind='BL', props=['C15', 'C04', 'C08'], unit='world_ii', harness='h_world.c', entry='w_nomatch_text', tier='thorough',
    variants=_text_variants(3, 26), unwind=26, timeout=3600, min_reach=0, bound=_BOUND % 'N=3 expectations, two WITH clauses each; message = token log of capacity 24')
